@@ -53,12 +53,7 @@ type schedState struct {
 }
 
 func (m *Machine) sched() *schedState {
-	s, ok := m.side["sched"].(*schedState)
-	if !ok {
-		s = &schedState{endCh: make(chan pathEnd, 64)}
-		m.side["sched"] = s
-	}
-	return s
+	return m.ss
 }
 
 // runThreads runs the harness as the main thread and returns the path outcome.
@@ -91,12 +86,11 @@ func (m *Machine) newThread(name string, fn Value, args []Value) *Thread {
 	t := &Thread{id: len(m.threads), name: name, resume: make(chan struct{}, 1), fn: fn, args: args}
 	m.threads = append(m.threads, t)
 	s.wg.Add(1)
-	go m.threadMain(t)
+	go m.threadMain(t, s)
 	return t
 }
 
-func (m *Machine) threadMain(t *Thread) {
-	s := m.sched()
+func (m *Machine) threadMain(t *Thread, s *schedState) {
 	defer s.wg.Done()
 	<-t.resume
 	if m.tearing {
@@ -187,12 +181,19 @@ func (m *Machine) runnable(t *Thread) bool {
 // Advances the virtual clock when nothing is runnable. Returns nil after
 // reporting a deadlock.
 func (m *Machine) pickNext(from *Thread) *Thread {
-	for {
+	for iter := 0; ; iter++ {
+		if iter > 100000 {
+			m.inconclusive("scheduler made no progress (clock advance loop)")
+		}
 		var cands []*Thread
 		for _, t := range m.threads {
 			if t != from && m.runnable(t) {
 				cands = append(cands, t)
 			}
+		}
+		// the parked thread itself may have become runnable (its deadline passed)
+		if from != nil && !from.done && !from.quiesce && from.blocked != nil && from.blocked() {
+			cands = append(cands, from)
 		}
 		if len(cands) > 0 {
 			k := m.choose("sched", len(cands))
@@ -236,12 +237,17 @@ func (m *Machine) advanceClock() bool {
 		}
 	}
 	for _, t := range m.threads {
-		if !t.done && t.blocked != nil && t.wakeAt > 0 && (next < 0 || t.wakeAt < next) {
+		if !t.done && t.blocked != nil && t.wakeAt > m.clock && (next < 0 || t.wakeAt < next) {
 			next = t.wakeAt
 		}
 	}
 	if next < 0 || next > m.horizon {
 		return false
+	}
+	if next <= m.clock {
+		// a due timer that has not fired yet
+		m.fireTimers()
+		return true
 	}
 	if next > m.clock {
 		m.clock = next
